@@ -4,6 +4,7 @@ import Qryn.Gen.DateSites
 import Qryn.Proofs.LogQLPlan
 import Qryn.Proofs.ConfineMetric
 import Qryn.LogQL.PostMetric
+import Qryn.Proofs.ConfineTrace
 /-! # C13 — every read is confined to the requested time window and signal type
 
 `Confine.confined` is a structural predicate on statements (every base-table scan carries timestamp
@@ -188,5 +189,52 @@ example : MetricCfg ⟨fun t => if t = "samples_v3" ∨ t = "metrics_15s" then .
   constructor
   · constructor <;> decide
   · decide
+
+end Qryn.C13
+
+/-! ## the TraceQL planner (`TraceQL.plan`, `planTags`, `planValues`, tied byte for byte to
+    `clickhouse_transpiler.Plan/PlanTagsV2/PlanValuesV2` by C11's text streams and by the `model-traceql` stream here) -/
+namespace Qryn.C13
+open Qryn Qryn.Sql Qryn.Confine
+
+/-- **all_scans_confined_traceql.** For every script the TraceQL planner model accepts — one selector, chains of
+    `&&` / `||` of any length and nesting (set operations whose operands carry their own WITH lists), `{}`,
+    aggregators, the random filter of complex request portions — every base-table scan of the statement is
+    confined to the request's window: the attribute-index scans by the UTC date range covering `[From, To]`
+    (and the timestamp bounds), the attribute-less span scans by timestamp bounds, and the span-table scans
+    that fetch the result only through trace ids selected by those scans. `confinedDeep` is the predicate the
+    driver evaluates on the dumps of the real plans (with fuel 64); it holds for all sufficiently large fuel. -/
+theorem all_scans_confined_traceql (cfg : Cfg) (c : TraceQL.Ctx) (h : TraceCfg cfg c) (script : TraceQL.Script) (s : Sel)
+    (hs : TraceQL.plan c script = .ok s) : ∃ n, ∀ f, n ≤ f → confinedDeep cfg (winT c) f s = true :=
+  (plan_good cfg c h script s hs).confined
+
+/-- **all_scans_confined_traceql_tags.** The same for the tag-names statement (`PlanTagsV2`). -/
+theorem all_scans_confined_traceql_tags (cfg : Cfg) (c : TraceQL.Ctx) (h : TraceCfg cfg c) (script : TraceQL.Script) (s : Sel)
+    (hs : TraceQL.planTags c script = .ok s) : ∃ n, ∀ f, n ≤ f → confinedDeep cfg (winT c) f s = true :=
+  (planTags_good cfg c h script s hs).confined
+
+/-- **all_scans_confined_traceql_values.** … and for the tag-values statement (`PlanValuesV2`), both its forms: the
+    key/value table scanned by the date range `[From − 30 min, To]`, or the attribute index restricted by the
+    selector. -/
+theorem all_scans_confined_traceql_values (cfg : Cfg) (c : TraceQL.Ctx) (h : TraceCfg cfg c) (kvTable : String)
+    (hkv : cfg.kind kvTable = .index) (key : Bytes) (script : TraceQL.Script) (s : Sel)
+    (hs : TraceQL.planValues c kvTable key script = .ok s) : ∃ n, ∀ f, n ≤ f → confinedDeep cfg (winT c) f s = true :=
+  (planValues_good cfg c h kvTable hkv key script s hs).confined
+
+/-- **confinedDeep_fuel_mono.** More fuel never changes a positive verdict of `confinedDeep` (fuel only bounds the
+    nesting of set operations it follows), so the `∃ n` above is a threshold. -/
+theorem confinedDeep_fuel_mono (cfg : Cfg) (w : Window) (f f' : Nat) (s : Sel) (hle : f ≤ f')
+    (h : confinedDeep cfg w f s = true) : confinedDeep cfg w f' s = true :=
+  confinedDeep_mono cfg w hle h
+
+-- non-vacuity: the planner succeeds on a script with `&&`, and the hypotheses on the tables are satisfiable
+example : (match TraceQL.plan ⟨100, 200, 0, 10, false, "tempo_traces_attrs_gin", "tempo_traces_attrs_gin_dist", "tempo_traces", "tempo_traces_dist", 0, 0, []⟩
+    [(⟨some (.leaf ⟨".a", .eq, .str [34, 98, 34] (some [98])⟩), none⟩, .and),
+     (⟨some (.leaf ⟨"duration", .gt, .dur ⟨false, [1], false, []⟩ .s⟩), none⟩, .none)] with | .ok _ => true | .error _ => false) = true := by
+  decide +kernel
+example : TraceCfg ⟨fun t => if t = "tempo_traces" ∨ t = "tempo_traces_dist" then .data else if t = "tempo_traces_attrs_gin" ∨ t = "tempo_traces_attrs_gin_dist" then .index else .other,
+      fun _ => false, fun t => t = "tempo_traces" ∨ t = "tempo_traces_dist"⟩
+    ⟨100, 200, 0, 10, false, "tempo_traces_attrs_gin", "tempo_traces_attrs_gin_dist", "tempo_traces", "tempo_traces_dist", 0, 0, []⟩ := by
+  constructor <;> decide
 
 end Qryn.C13
